@@ -24,15 +24,18 @@ LEVEL_NOTE = ('chi^2 values are chosen off the thresholds (equality is outside t
 RULE = ("cases: chunks of kind sequences; executions: filter_output per (sequence, criterion, input form, naming); one evaluation per source placed; non-trivial = distinct "
         "(sequence, criterion) that contain both good and bad sources")
 ASSUMPTIONS = ["best chi^2 never equals the threshold", "n_data >= 1"]
-REQUIRED_CLASSES = ['criterion-chi', 'criterion-cpd', 'auto-names', 'explicit-names', 'input-file', 'input-list', 'all-good', 'all-bad', 'mixed', 'good-by-chi-only', 'good-by-cpd-only',
+REQUIRED_CLASSES = ['ranking-ends-in-nan-rows', 'record-over-64KiB-among-small-ones', 'arguments-by-position', 'criterion-chi', 'criterion-cpd', 'auto-names', 'explicit-names', 'input-file', 'input-list', 'all-good', 'all-bad', 'mixed', 'good-by-chi-only', 'good-by-cpd-only',
                     'length-10', 'one-name-explicit', 'best-chi2-nan-or-inf', 'flags-edited-in-place-between-calls']
 TIMEOUT = {'quick': 600, 'thorough': 3000}
 
 CHI_T, CPD_T = 10.0, 3.0
 #        best chi2, flags (n_data = count of 1/4)
 KINDS = {'G': (4.0, (1, 4, 0, 9)), 'C': (8.0, (1, 1, 2, 3)), 'P': (12.0, (1, 1, 4, 1, 1, 0)), 'B': (40.0, (4, 1, 3)),
-         'N': (float('nan'), (1, 1, 4)), 'I': (float('inf'), (1, 4))}        # a best chi^2 that is NaN or infinite is not below any threshold
-GOOD = {'chi': {'G', 'C'}, 'cpd': {'G', 'P'}}
+         'N': (float('nan'), (1, 1, 4)), 'I': (float('inf'), (1, 4)),        # a best chi^2 that is NaN or infinite is not below any threshold
+         'T': (4.0, (1, 4, 0, 9)),        # like G, but the ranking ends in NaN rows (invalid models ranked last): the best chi^2 is still 4
+         'H': (4.0, (1, 4, 0, 9)),        # like G, with 400 fits and their fluxes: a record of more than 64 KiB among small ones
+         'J': (40.0, (4, 1, 3))}         # like B, 400 fits
+GOOD = {'chi': {'G', 'C', 'T', 'H'}, 'cpd': {'G', 'P', 'T', 'H'}}
 
 
 def setup(tier, seed):
@@ -48,6 +51,16 @@ def setup(tier, seed):
         for t in itertools.product('GBNI', repeat=L):
             if 'N' in t or 'I' in t:
                 seqs.append(''.join(t))
+    # rankings ending in NaN rows; records of more than 64 KiB between small ones (every order of up to 3, and two longer runs)
+    for L in (1, 2, 3):
+        for t in itertools.product('GBT', repeat=L):
+            if 'T' in t:
+                seqs.append(''.join(t))
+    for L in (1, 2, 3):
+        for t in itertools.product('GBHJ', repeat=L):
+            if ('H' in t or 'J' in t) and (tier == 'thorough' or sum(1 for x in t if x in 'HJ') == 1):
+                seqs.append(''.join(t))
+    seqs += ['GBGHGBJB', 'BGJGHG']
     chunk = 60
     return {'tier': tier, 'seed': seed, 'cases': [{'seqs': seqs[i:i + chunk], 'first': i} for i in range(0, len(seqs), chunk)]}
 
@@ -83,12 +96,18 @@ def _record(kind, idx, meta):
     s.error = np.ones(len(flags)) * 0.25
     i = FitInfo(s)
     n = 1 + idx % 3
+    if kind in 'HJ':
+        n = 400
+    if kind == 'T':
+        n = 4
     i.chi2 = best + np.arange(n) * 1.75 + 0.01 * idx if best == best else np.array([best] * n)
+    if kind == 'T':
+        i.chi2[2:] = np.nan
     i.av = np.arange(n) * 0.5
     i.sc = np.arange(n) * -0.25
     i.model_id = np.arange(n)[::-1].copy()
     i.model_name = np.array(['m%d' % q if idx % 2 else ('m%d' % q).ljust(12) for q in range(n)], dtype='U30')        # every other record: names padded to a fixed width
-    i.model_fluxes = None if idx % 2 else np.arange(n * len(flags), dtype=float).reshape(n, len(flags))
+    i.model_fluxes = None if (idx % 2 and kind not in 'HJ') else np.arange(n * len(flags), dtype=float).reshape(n, len(flags))
     i.meta.model_dir, i.meta.filters, i.meta.extinction_law = meta
     return i
 
@@ -143,7 +162,12 @@ def run_case(ctx, case, rec, d):
                     kw['output_bad'] = bad_p
                 sub = {'seq': seq, 'criterion': crit, 'form': frm, 'naming': naming}
                 try:
-                    filter_output(arg, **kw)
+                    if naming == 'explicit' and n % 3 == 0:
+                        # the documented argument order, by position
+                        rec.cls('arguments-by-position')
+                        filter_output(*([arg, good_p, bad_p, CHI_T] if crit == 'chi' else [arg, good_p, bad_p, None, CPD_T]))
+                    else:
+                        filter_output(arg, **kw)
                     good, bad = _read(good_p), _read(bad_p)
                 except Exception as e:
                     from mc.runner import exc_signature
@@ -157,6 +181,10 @@ def run_case(ctx, case, rec, d):
                 rec.cls({'auto': 'auto-names', 'explicit': 'explicit-names'}.get(naming, 'one-name-explicit'))
                 if 'N' in seq or 'I' in seq:
                     rec.cls('best-chi2-nan-or-inf')
+                if 'T' in seq:
+                    rec.cls('ranking-ends-in-nan-rows')
+                if ('H' in seq or 'J' in seq) and len(seq) > 1:
+                    rec.cls('record-over-64KiB-among-small-ones')
                 rec.cls('input-' + frm)
                 if len(seq) == 10:
                     rec.cls('length-10')
